@@ -39,13 +39,7 @@ theorem fresh_value (L : List Val) : ∃ v : Val, L.contains v = false := by
 
 /-! decimal rendering -/
 
-def digitChar (d : Nat) : Char := Char.ofNat (48 + d)
-
 theorem digitVal_digitChar : ∀ d, d < 10 → digitVal (digitChar d) = some d := by decide
-
-def natDigits : Nat → Nat → List Char
-  | 0, _ => ['0']
-  | f + 1, n => if n < 10 then [digitChar n] else natDigits f (n / 10) ++ [digitChar (n % 10)]
 
 theorem parseNat_append (a b : List Char) (acc : Nat) :
     parseNat (a ++ b) acc = (parseNat a acc).bind (fun x => parseNat b x) := by
